@@ -376,9 +376,10 @@ PL_VARIANTS = {
 }
 
 
-def _pl_cfg(budget: int, edge: bool, variant: str | None = None, ticks: str | None = None) -> str:
+def _pl_cfg(budget: int, edge: bool, variant: str | None = None, ticks: str | None = None, cfghold: int = 9000) -> str:
     cfg = open(os.path.join(tlc.SPEC, 'MC_ExaPeerLoop.cfg')).read()
     cfg = re.sub(r'Budget = \d+', f'Budget = {budget}', cfg)
+    cfg = re.sub(r'CfgHold = \d+', f'CfgHold = {cfghold}', cfg)
     cfg = cfg.replace('EdgeCover = FALSE', f'EdgeCover = {"TRUE" if edge else "FALSE"}')
     if ticks:
         cfg = re.sub(r'Ticks = \{[^}]*\}', f'Ticks = {ticks}', cfg)
@@ -427,8 +428,13 @@ def script_to_steps(script: list, coalesce: bool) -> list:
     steps = []
     if not ev or ev[0]['do'] != 'refuse':
         steps.append({'do': 'sleep', 'ms': 5})
+    warm = 0
     for k, e in enumerate(ev):
         do = e['do']
+        handshake = False           # the model's free handshake (first valid OPEN, first KEEPALIVE after it) is always settled
+        if do == 'send' and ((warm == 0 and e['cls'] == 'OPEN') or (warm == 1 and e['cls'] == 'KA')):
+            warm += 1
+            handshake = True
         if do == 'send':
             if e['cls'] == 'EOF':
                 steps.append({'do': 'close'})
@@ -446,7 +452,7 @@ def script_to_steps(script: list, coalesce: bool) -> list:
         elif do == 'refuse':
             steps.append({'do': 'refuse', 'n': 1})
         nxt = ev[k + 1]['do'] if k + 1 < len(ev) else ''
-        if not (coalesce and nxt not in ('', 'tick', 'refuse') and do != 'refuse'):
+        if not (coalesce and not handshake and nxt not in ('', 'tick', 'refuse') and do != 'refuse'):
             steps.append({'do': 'sleep', 'ms': 5})      # let the real system run to its next waiting point
     steps.append({'do': 'sleep', 'ms': 1500})
     return steps
@@ -456,8 +462,8 @@ def TYPE_OPEN(cls: str) -> bool:
     return cls.startswith('OPEN')
 
 
-def _pl_enumerate(ck: Check, budget: int, ticks: str | None, label: str) -> list:
-    cfg = _pl_cfg(budget, True, ticks=ticks)
+def _pl_enumerate(ck: Check, budget: int, ticks: str | None, label: str, cfghold: int = 9000) -> list:
+    cfg = _pl_cfg(budget, True, ticks=ticks, cfghold=cfghold)
     res, vals = tlc.dump_var('ExaPeerLoop', 'gen.cfg', f'pl-gen-{ck.prop}-{budget}', 'script', cfg_text=cfg, timeout=3000)
     ck.tlc(res, f'ExaPeerLoop script enumeration (one per model state and last environment action), budget {budget} {label}')
     if not res.ok:
@@ -478,8 +484,13 @@ def peerloop_scripts(ck: Check, tier: str, seed: int) -> list:
         chosen = _pl_enumerate(ck, 1, None, 'all ticks')
         n_both = len(chosen)
         more = _pl_enumerate(ck, 2, '{150, 3100, 61000}', 'ticks 150/3100/61000')
-        # always: the pure event sequences (no time passing) on the 9 s session; a seeded sample of the others
-        always = [x for x in more if not any(e[0] == 'tick' for e in x) and all(e[2] == 9000 for e in x if e[1] == 'OPEN')]
+        # always: the pure event sequences (time only passes after the last event) on the 9 s session; a seeded sample of the others
+        def core(x):                # the script without its trailing (free) ticks
+            y = list(x)
+            while y and y[-1][0] == 'tick':
+                y.pop()
+            return y
+        always = [x for x in more if not any(e[0] == 'tick' for e in core(x)) and all(e[2] == 9000 for e in x if e[1] == 'OPEN')]
         rest = sorted(set(more) - set(always))
         chosen += always + rnd.sample(rest, min(len(rest), 500))
     else:
@@ -487,8 +498,10 @@ def peerloop_scripts(ck: Check, tier: str, seed: int) -> list:
         n_both = 0
         more = _pl_enumerate(ck, 3, '{150, 3100, 61000}', 'ticks 150/3100/61000')
         chosen += rnd.sample(more, min(len(more), 20000))
+    # the same machine configured with hold-time 0 (no timers whatever the peer offers): every script of budget 1 / 2
+    zero = _pl_enumerate(ck, 1 if tier == 'quick' else 2, None, 'configured hold time 0', cfghold=0)
     out = []
-    for n, s in enumerate(chosen):
+    for n, (s, cfghold) in enumerate([(x, 9) for x in chosen] + [(x, 0) for x in zero]):
         script = [dict(zip(('do', 'cls', 'hold', 'ms', 'code'), e)) for e in s]
         horizon = sum(e['ms'] for e in script) + 20_000
         compact = ';'.join(
@@ -499,9 +512,9 @@ def peerloop_scripts(ck: Check, tier: str, seed: int) -> list:
         adjacent = any(a['do'] not in ('tick', 'refuse') and b['do'] not in ('tick', 'refuse') for a, b in zip(script, script[1:]))
         # two concretisations of one environment script: the system is given 5 ms (virtual) to run between two actions, or
         # consecutive actions happen with nothing in between (one TCP segment, one 100 ms poll window)
-        settled = not (tier == 'quick' and adjacent and n >= n_both)
+        settled = not (tier == 'quick' and adjacent and n_both <= n < len(chosen))
         if settled:
-            out.append((f'model:{compact}', script_to_steps(script, False), {'horizon_ms': horizon}))
+            out.append((f'model{cfghold}:{compact}', script_to_steps(script, False), {'horizon_ms': horizon, 'hold': cfghold}))
         if adjacent:
-            out.append((f'model:{compact}/coalesced', script_to_steps(script, True), {'horizon_ms': horizon}))
+            out.append((f'model{cfghold}:{compact}/coalesced', script_to_steps(script, True), {'horizon_ms': horizon, 'hold': cfghold}))
     return out
